@@ -88,6 +88,10 @@ def build_aave(sim, mw):
             cols[c] = [str(x) for x in series]  # csv cells; set_token_data maps them through to_decimal
         df = pd.DataFrame(cols, index=sim.index)
         df.index.name = "block_timestamp"
+        if mw.get("row_order") == "newest_half_first" and len(df) >= 2:
+            # the files joined in an order of the caller's making: rows keep their own timestamps, only their order differs
+            h = max(1, len(df) // 2)
+            df = pd.concat([df.iloc[h:], df.iloc[:h]])
         market.set_token_data(info, df)  # real: Decimal conversion + (TOKEN, col) MultiIndex columns
     sim.mdata[mw["name"]] = {"mw": mw, "tokens": tokens}
     return market
